@@ -926,6 +926,7 @@ func (w *world) run(c Case, sOff int) result {
 			out = fmt.Sprint(inc)
 		} else if out == "err" && inc {
 			det = "(true, " + det + ")"
+			w.rep.Count("included_true_with_error", 1) // (true, ErrInvalidProof): not "answers true", see DESIGN.md §11
 		}
 		return result{outcome: out, detail: det, truth: w.incTruth(v)}
 	case "req":
